@@ -424,11 +424,13 @@ impl<H: Hasher> VectorCommitment<H> for MerkleTree<H> {
     }
 
     fn get_proof_domain_len(proof: &Self::Proof) -> usize {
-        1 << proof.len()
+        // a proof deeper than the platform word describes no addressable domain
+        1usize.checked_shl(proof.len() as u32).unwrap_or(0)
     }
 
     fn get_multiproof_domain_len(proof: &Self::MultiProof) -> usize {
-        1 << proof.depth
+        // `depth` comes straight from untrusted proof bytes
+        1usize.checked_shl(proof.depth as u32).unwrap_or(0)
     }
 
     fn open(&self, index: usize) -> Result<(H::Digest, Self::Proof), Self::Error> {
